@@ -164,6 +164,86 @@ def run_loss(case):
     return {"nontrivial": n >= 5 and (0 < lost < n or case["mode"] == "const"), "classes": sorted(classes)}
 
 
+def run_loss_varying(case):
+    """loss together with varying delays. No draw-to-packet mapping is assumed: a delivered packet's delay is some draw made
+    between its entry and its delivery, so delivery_k must lie in
+    [a_k + min(draws in that window), max(a_k + max(draws in that window), delivery of the previous delivered packet)]."""
+    lab = Lab(clause="C10.no_exception")
+    delays = list(case["delays"])
+    calls = []
+
+    def dist():
+        d = delays[len(calls) % len(delays)]
+        calls.append((F(lab.env.now), F(d)))
+        return d
+    old = wire_mod.random
+    wire_mod.random = pyrandom.Random(case["rseed"])
+    try:
+        wire = Wire(lab.env, dist, loss_rate=case["loss_rate"])
+        out = lab.tap("out")
+        wire.out = out
+        entry = lab.tap("in", wire)
+        lab.inject(entry, case["wl"])
+        lab.run()
+    finally:
+        wire_mod.random = old
+    ins, outs = entry.recs, out.recs
+    by_obj = {id(r.pkt): r for r in ins}
+    prev = None
+    last_seq = -1
+    seen = set()
+    held_back = 0
+    for ro in outs:
+        ri = by_obj.get(id(ro.pkt))
+        if ri is None or id(ro.pkt) in seen:
+            raise Violation("C10.delivered_once", "packet delivered twice or never entered", "C10.delivered_once/varying")
+        seen.add(id(ro.pkt))
+        check_same(ri, ro)
+        if ri.seq < last_seq:
+            raise Violation("C10.order", f"packet {ro.snap[0]} overtook a later one", "C10.order")
+        last_seq = ri.seq
+        a, dlv = F(ri.now), F(ro.now)
+        window = [d for (t, d) in calls if a <= t <= dlv]
+        if not window:
+            raise Violation("C10.draws", f"packet {ro.snap[0]} delivered without any delay draw between its entry and delivery",
+                            "C10.draws/none")
+        lo = a + min(window)
+        hi = a + max(window)
+        if prev is not None:
+            hi = max(hi, prev)
+        if dlv < lo:
+            raise Violation("C10.delivery_instant", f"packet {ro.snap[0]} entered {ri.now}, delivered {ro.now}: before a + smallest "
+                                                    f"candidate delay {float(min(window))}", "C10.delivery_instant/early")
+        if dlv > hi:
+            raise Violation("C10.delivery_instant", f"packet {ro.snap[0]} entered {ri.now}, delivered {ro.now}: later than both "
+                                                    f"a + largest candidate delay ({float(max(window))}) and the previous delivery "
+                                                    f"({prev if prev is None else float(prev)}) - held back by a discarded packet?",
+                            "C10.delivery_instant/held-by-lost")
+        if prev is not None and a + max(window) < prev:
+            held_back += 1
+        prev = dlv
+    lost = len(ins) - len(outs)
+    n = len(ins)
+    lo, hi = binom_band(n, Fraction(case["loss_rate"]).limit_denominator(1000))
+    if not (lo <= lost <= hi):
+        raise Violation("C10.loss", f"{lost} of {n} lost at p={case['loss_rate']}: outside the 1e-9 binomial band [{lo}, {hi}]",
+                        "C10.loss/frequency")
+    classes = set()
+    if 0 < lost < n:
+        classes.add("some lost, some delivered")
+    if held_back:
+        classes.add("held back by predecessor (clamp)")
+    return {"nontrivial": 0 < lost < n and len(set(delays)) > 1, "classes": sorted(classes)}
+
+
+def loss_varying_strategy(tier):
+    big = tier == "thorough"
+    wl = netlab.workload([0, 1], n_max=60 if big else 30, exact=True, min_size=6, late=False)
+    dl = st.lists(st.sampled_from([0, 1 / 8, 0.5, 1, 2, 8, 16]), min_size=2, max_size=8)
+    return st.fixed_dictionaries({"exact": st.just(True), "delays": dl, "wl": wl,
+                                  "loss_rate": st.sampled_from([0.25, 0.5, 0.75]), "rseed": st.integers(0, 10 ** 6)})
+
+
 def run_cable(case):
     """(c) a Cable is two independent wires, one per direction"""
     lab = Lab(clause="C10.no_exception")
@@ -256,12 +336,16 @@ PROP = Property(
           "in order, once, one draw per packet. Non-trivial = >=1 packet held back by its predecessor and >=2 not. (loss) constant "
           "delay so that no draw-to-packet mapping is assumed: delivered packets arrive at exactly a+d in order; constant draw u: "
           "u<p all lost, u>p none; seeded draws: number lost inside the 1e-9 two-sided binomial band; p in {None,0} none, p=1 all. "
-          "(cable) two endpoints, per-direction delays: packets reach only the other end at exactly a+d of their direction."),
+          "(loss_varying) seeded loss with varying scripted delays, no draw-to-packet mapping assumed: each delivered packet "
+          "leaves within [a + min, max(a + max, previous delivery)] over the draws made between its entry and its delivery, so "
+          "a discarded packet can delay nobody. (cable) two endpoints, per-direction delays: packets reach only the other end at exactly a+d of their direction."),
     facets=[
         Facet("noloss", noloss_strategy, run_noloss, quick=1200, thorough=8000,
               essential=["held back by predecessor (clamp)", "own delay decides", "zero delay"]),
         Facet("loss", loss_strategy, run_loss, quick=600, thorough=4000,
               essential=["constant draw below p", "constant draw above p", "seeded draws", "loss rate 1", "some lost, some delivered"]),
+        Facet("loss_varying", loss_varying_strategy, run_loss_varying, quick=600, thorough=4000,
+              essential=["some lost, some delivered", "held back by predecessor (clamp)"]),
         Facet("cable", cable_strategy, run_cable, quick=300, thorough=1500, essential=["both directions"]),
     ],
     assumptions=["frequency clause is statistical (binomial band at 1e-9); independence of draws is not testable beyond that",
